@@ -172,7 +172,7 @@ def showPayload : Payload → String
   | .ty t => "t" ++ showTy t
   | .alg s => "a" ++ hex s
 
-def showEntry (s : Mgr) (ci : Content × Id) : String :=
+def showEntry (s : Mgr) (ci : Content × Nid) : String :=
   let (c, i) := ci
   toString i ++ ";" ++ toString c.nodeType ++ ";" ++ ",".intercalate (c.args.map toString) ++ ";" ++
     showPayload c.payload ++ ";" ++ (match s.bvWidth i with | some w => toString w | none => "-")
@@ -194,22 +194,22 @@ def showTm (tm : TypeMgr) : String :=
 structure St where
   m0 : Mgr := Mgr.init
   m1 : Mgr := Mgr.init
-  addr0 : List Id := []
-  addr1 : List Id := []
-  results : Array (Nat × Except Err Id) := #[]
+  addr0 : List Nid := []
+  addr1 : List Nid := []
+  results : Array (Nat × Except Err Nid) := #[]
 
 def St.mgr (st : St) (e : Nat) : Mgr := if e = 0 then st.m0 else st.m1
 def St.setMgr (st : St) (e : Nat) (m : Mgr) : St := if e = 0 then { st with m0 := m } else { st with m1 := m }
 
-def addrOf (l : List Id) (i : Id) : Nat :=
+def addrOf (l : List Nid) (i : Nid) : Nat :=
   match l.idxOf? i with
   | some k => k
   | none => l.length + i
 
-def St.addr (st : St) (e : Nat) : Id → Nat := addrOf (if e = 0 then st.addr0 else st.addr1)
+def St.addr (st : St) (e : Nat) : Nid → Nat := addrOf (if e = 0 then st.addr0 else st.addr1)
 
 /-- `r<k>`: the id returned by op `k`, which must belong to environment `e` -/
-def St.ref (st : St) (e : Nat) (tok : String) : Option Id :=
+def St.ref (st : St) (e : Nat) (tok : String) : Option Nid :=
   match tok.toList with
   | 'r' :: ds =>
     match (String.ofList ds).toNat? with
@@ -220,7 +220,7 @@ def St.ref (st : St) (e : Nat) (tok : String) : Option Id :=
     | none => none
   | _ => none
 
-def St.refs (st : St) (e : Nat) (tok : String) : Option (List Id) :=
+def St.refs (st : St) (e : Nat) (tok : String) : Option (List Nid) :=
   match tok.toList with
   | ['[', ']'] => some []
   | '[' :: r =>
@@ -229,7 +229,7 @@ def St.refs (st : St) (e : Nat) (tok : String) : Option (List Id) :=
     | _ => none
   | _ => none
 
-def St.pairs (st : St) (e : Nat) (tok : String) : Option (List (Id × Id)) :=
+def St.pairs (st : St) (e : Nat) (tok : String) : Option (List (Nid × Nid)) :=
   match tok.toList with
   | ['[', ']'] => some []
   | '[' :: r =>
@@ -282,7 +282,7 @@ def readBvArg (st : St) (e : Nat) (tok : String) : Option BvArg :=
   | _ => (st.ref e tok).map .node
 
 /-- the program of one op (environment `e`), or `none` when ill-formed -/
-def opProg (st : St) (e : Nat) (toks : List String) : Option (Prog Id) :=
+def opProg (st : St) (e : Nat) (toks : List String) : Option (Prog Nid) :=
   let ref := st.ref e
   let refs := st.refs e
   let addr := st.addr e
@@ -362,7 +362,7 @@ def opProg (st : St) (e : Nat) (toks : List String) : Option (Prog Id) :=
   | [name, a, b, c] => do some (mkPlain (← terPlain name) [← ref a, ← ref b, ← ref c])
   | _ => none
 
-def distinctKeys : List (Id × Id) → Bool
+def distinctKeys : List (Nid × Nid) → Bool
   | [] => true
   | (k, _) :: t => !(t.any (·.1 == k)) && distinctKeys t
 
@@ -391,7 +391,7 @@ def step (st : St) (toks : List String) : Option St :=
     | none => none
   | [] => none
 where
-  exec (e : Nat) (p : Prog Id) : Option St :=
+  exec (e : Nat) (p : Prog Nid) : Option St :=
     let (r, m') := p.run (st.mgr e)
     some { (st.setMgr e m') with results := st.results.push (e, r) }
   run (e : Nat) (rest : List String) : Option St :=
@@ -406,13 +406,13 @@ def splitOps (toks : List String) : List (List String) :=
     | x :: t => go (x :: cur) acc t
   go [] [] toks
 
-def readAddr (tok : String) : Option (List Id) :=
+def readAddr (tok : String) : Option (List Nid) :=
   match tok.toList with
   | 'A' :: ':' :: r =>
     if r.isEmpty then some [] else ((String.ofList r).splitOn ",").mapM String.toNat?
   | _ => none
 
-def showRes : Except Err Id → String
+def showRes : Except Err Nid → String
   | .ok i => toString i
   | .error e => showErr e
 
